@@ -12,7 +12,7 @@ from .common import safe
 ID = 'C16'
 RULE = ('Reachable removal-enabled states (histories of 1-12 calls; reciprocal arcs with different / overlapping '
         'timelines, self-loops, isolated attributed nodes, nested mutable node and graph attributes, int/str/tuple/'
-        'frozenset/mixed - i.e. also unorderable - node ids). DynDiGraph: to_undirected() presence == union of both '
+        'frozenset/mixed/plain-object - i.e. also unorderable, hash-colliding and identity-equal - node ids; graph attribute names incl. edge_removal / data / name). DynDiGraph: to_undirected() presence == union of both '
         'directions, to_undirected(reciprocal=True) == intersection; DynGraph: to_directed() has both arcs with the '
         'pair\'s timeline. Plus: class, all nodes kept, attributes equal, deep-copy isolation (every nested attribute value '
         'of the result is mutated, a node and an interaction are added to it, then observe(G) must be unchanged), G '
